@@ -29,6 +29,7 @@ type LoopSpec struct {
 }
 
 type AssertSpec struct {
+	Ghost  string
 	Anchor string
 	C      Clause
 	Assume bool
@@ -355,6 +356,26 @@ func (c *Contract) addClause(kw, rest, path string, line int) error {
 		default:
 			return fmt.Errorf("unknown loop clause %q", f[1])
 		}
+	case "ghost":
+		// ghost NAME at "anchor" expr: NAME denotes the value of expr at the anchored point in later clauses
+		f := strings.SplitN(rest, " ", 2)
+		if len(f) < 2 || !strings.HasPrefix(strings.TrimSpace(f[1]), "at ") {
+			return fmt.Errorf("ghost NAME at \"anchor\" expr")
+		}
+		r := strings.TrimSpace(strings.TrimSpace(f[1])[3:])
+		if !strings.HasPrefix(r, "\"") {
+			return fmt.Errorf("anchor string expected")
+		}
+		j := strings.Index(r[1:], "\"")
+		if j < 0 {
+			return fmt.Errorf("unterminated anchor")
+		}
+		cl, err := mkClause(strings.TrimSpace(r[j+2:]), path, line, true)
+		if err != nil {
+			return err
+		}
+		cl.Label = "ghost." + f[0]
+		c.Asserts = append(c.Asserts, AssertSpec{Anchor: r[1 : 1+j], C: cl, Ghost: f[0]})
 	case "stored":
 		// stored at "anchor" expr: the value stored by the statement on the anchored source line equals expr
 		if !strings.HasPrefix(rest, "at ") {
